@@ -21,14 +21,28 @@ pub fn export_keys(opts: &Opts) -> i32 {
             let v: Vec<[u32; 4]> = (0..64u8)
                 .map(|i| limbs(chess_lookup::zobrist(sq(i), p, c)))
                 .collect();
-            piece.insert(PIECE_CH[c as usize][p as usize].to_string(), json!(v));
+            piece.insert(piece_ch(c, p).to_string(), json!(v));
         }
     }
     let ep: Vec<[u32; 4]> = File::all()
         .map(|f| limbs(chess_lookup::en_passant_zobrist(f)))
         .collect();
-    let cr: Vec<[u32; 4]> = (0..16usize)
-        .map(|i| limbs(chess_lookup::castle_rights_zobrist(i)))
+    // one key per SET of castling rights (bit 0 K, 1 Q, 2 k, 3 q), looked up the way the board does it
+    // (through CastleRights::to_index), so that the table does not depend on the crate's internal bit layout
+    let cr: Vec<[u32; 4]> = (0..16u8)
+        .map(|m| {
+            use chess_bitboard::Side;
+            let mut r = chess_movegen::CastleRights::empty();
+            for (i, (side, color)) in [(Side::King, Color::White), (Side::Queen, Color::White), (Side::King, Color::Black), (Side::Queen, Color::Black)]
+                .into_iter()
+                .enumerate()
+            {
+                if m & (1 << i) != 0 {
+                    r = r.with(side, color);
+                }
+            }
+            limbs(chess_lookup::castle_rights_zobrist(r.to_index()))
+        })
         .collect();
     let keys = json!({
         "piece": piece,
